@@ -120,6 +120,24 @@ def qualifyCxxVariantName (u : EnumUse) : Str :=
   if u.isScoped then u.parent ++ scopeSep ++ u.enumName ++ scopeSep ++ u.variant
   else u.parent ++ scopeSep ++ u.variant
 
+/-- a bitwise operation with an operand of enumeration type (`enum_operand_type` is `Some`) -/
+structure BitUse where
+  unary : Bool
+  /-- the (left) operand is of scoped enumeration type -/
+  lScoped : Bool
+  rScoped : Bool
+deriving Repr, DecidableEq
+
+/-- `format_bitwise_operand` (4e55b2c): an operand of scoped enumeration type is printed as
+    `static_cast<int>(operand)`, any other operand as it is -/
+def formatBitwiseOperand (operandIsScoped : Bool) (operand : Str) : Str :=
+  if operandIsScoped then "static_cast<int>(".toList ++ operand ++ ")".toList else operand
+
+/-- number of `static_cast<int>(` one bitwise operation prints: the result (`static_cast<T>(static_cast<int>(…))`,
+    17832f1) plus one per scoped operand -/
+def bitwiseIntCasts (b : BitUse) : Nat :=
+  1 + (if b.lScoped then 1 else 0) + (if !b.unary && b.rScoped then 1 else 0)
+
 structure ExprInfo where
   /-- `!is_evaluated_constant()` -/
   dynamic : Bool
@@ -131,6 +149,10 @@ structure ExprInfo where
   lits : List (Bool × Str)
   /-- enumerator operands in emission order -/
   enums : List EnumUse := []
+  /-- `as int` casts (`Rvalue::StaticCast(int, _)`) printed in the body -/
+  asIntCasts : Nat := 0
+  /-- bitwise operations with an enumeration operand printed in the body -/
+  bitops : List BitUse := []
 deriving Repr
 
 inductive Kind where
@@ -150,6 +172,8 @@ structure Callback where
   uses : List Builtin
   lits : List (Bool × Str)
   enums : List EnumUse := []
+  asIntCasts : Nat := 0
+  bitops : List BitUse := []
 deriving Repr
 
 structure Obj where
@@ -306,6 +330,17 @@ def itemEnums (it : Item) : List EnumUse :=
 def Built.enums (b : Built) : List Str :=
   ((b.bindings.flatMap id).flatMap itemEnums ++ b.callbacks.flatMap (fun c => c.2.enums)).map qualifyCxxVariantName
 
+def codeIntCasts (asInt : Nat) (bitops : List BitUse) : Nat := asInt + (bitops.map bitwiseIntCasts).sum
+
+def itemIntCasts (it : Item) : Nat :=
+  match it.kind with
+  | .expr i => codeIntCasts i.asIntCasts i.bitops
+  | .gadget => 0
+
+/-- how many times the header spells `static_cast<int>(` -/
+def Built.intCasts (b : Built) : Nat :=
+  ((b.bindings.flatMap id).map itemIntCasts).sum + (b.callbacks.map (fun c => codeIntCasts c.2.asIntCasts c.2.bitops)).sum
+
 /-! ### includes (`collect_system_includes` scans EVERY code body, also those folded to constants) -/
 
 def nodeUses (n : PNode) : List Builtin :=
@@ -334,7 +369,7 @@ def Built.emittedUses (b : Built) : List Builtin :=
 
 /-! ### operators and builtin calls as spelled in C++ (`format_rvalue`) — small typing tables
 
-  `…Old` = the code before the repairs (F3a 0f767b2, F13 bd13865, F24 5a4a210, F23 17832f1). -/
+  `…Old` = the code before the repairs (F3a 0f767b2, F13 bd13865, F24 5a4a210, F23 17832f1, F70 4e55b2c). -/
 
 inductive PTy where
   | int | uint | double | bool | qstring
@@ -472,25 +507,27 @@ def bitOperandOk : ETy → Bool
   | .scopedEnum => false
   | _ => true
 
-/-- after 17832f1 the result of a bitwise operation with an enumeration operand is wrapped in the two casts;
-    the local has the type of the (first) enumeration operand.  The OPERANDS are printed as they are. -/
-def cxxAcceptsBit (flagOps : Bool) (op : BitOp) (l r : ETy) : Bool :=
-  bitOperandOk l && bitOperandOk r && castable l (bitResult flagOps op l r)
-def cxxAcceptsBitOld (flagOps : Bool) (op : BitOp) (l r : ETy) : Bool :=
-  bitOperandOk l && bitOperandOk r && assignable l (bitResult flagOps op l r)
-def cxxAcceptsNot (a : ETy) : Bool := bitOperandOk a && castable a (notResult a)
-def cxxAcceptsNotOld (a : ETy) : Bool := bitOperandOk a && assignable a (notResult a)
-
-/-- candidate repair of F70 (.work/C16.fix-F70.diff): an operand of scoped enumeration type is printed as
-    `static_cast<int>(operand)` -/
+/-- `format_bitwise_operand` on the level of types (4e55b2c): a scoped operand is cast to int -/
 def castScopedOperand : ETy → ETy
   | .scopedEnum => .int
   | t => t
 
-def cxxAcceptsBitF70 (flagOps : Bool) (op : BitOp) (l r : ETy) : Bool :=
+/-- the code today: operands through `format_bitwise_operand`, the result wrapped in the two casts (17832f1); the
+    local has the type of the (first) enumeration operand -/
+def cxxAcceptsBit (flagOps : Bool) (op : BitOp) (l r : ETy) : Bool :=
   bitOperandOk (castScopedOperand l) && bitOperandOk (castScopedOperand r) &&
     castable l (bitResult flagOps op (castScopedOperand l) (castScopedOperand r))
-def cxxAcceptsNotF70 (a : ETy) : Bool := bitOperandOk (castScopedOperand a) && castable a (notResult (castScopedOperand a))
+def cxxAcceptsNot (a : ETy) : Bool := bitOperandOk (castScopedOperand a) && castable a (notResult (castScopedOperand a))
+
+/-- before 4e55b2c (finding F70): the operands were printed as they are -/
+def cxxAcceptsBitPre70 (flagOps : Bool) (op : BitOp) (l r : ETy) : Bool :=
+  bitOperandOk l && bitOperandOk r && castable l (bitResult flagOps op l r)
+def cxxAcceptsNotPre70 (a : ETy) : Bool := bitOperandOk a && castable a (notResult a)
+
+/-- before 17832f1 (finding F23): no casts at all -/
+def cxxAcceptsBitOld (flagOps : Bool) (op : BitOp) (l r : ETy) : Bool :=
+  bitOperandOk l && bitOperandOk r && assignable l (bitResult flagOps op l r)
+def cxxAcceptsNotOld (a : ETy) : Bool := bitOperandOk a && assignable a (notResult a)
 
 /-- operands the type checker admits: of enumeration type (the enum, its flags alias, or a scoped enumeration) -/
 def isEnumOperand : ETy → Bool
